@@ -18,7 +18,7 @@ SITE_A = ("internal/flight/flight12/flight0handler.go flight0Parse / flight2hand
           "first, cookie-less ClientHello)")
 # ClientHello fields that ValidateHelloVerifyRequestResponse pins between the first and the second ClientHello:
 # everything before the extensions (version, random, session id, cipher suites, compression) + connection_id + use_srtp
-PINNED = {"ch_swap_suites", "ch_remove_first_suite", "ch_remove_last_suite", "ch_strip_srtp", "ch_alter_srtp",
+PINNED = {"ch_add_srtp", "ch_swap_suites", "ch_remove_first_suite", "ch_remove_last_suite", "ch_strip_srtp", "ch_alter_srtp",
           "ch_flip_random", "ch_session_id", "ch_version_10", "ch_strip_cid", "ch_alter_cid"}
 
 # ---------------------------------------------------------------- effect of a rewrite on the two views
@@ -43,7 +43,7 @@ LOCAL = {
     "cv_delete":       "certificate without CertificateVerify: server keeps waiting (C03 server12 = Wait)",
     "creq_delete":     "message_seq gap: the client never completes the server flight",
 }
-TRANSCRIPT = {"ch_narrow_alpn", "ch_narrow_groups", "ch_swap_suites", "ch_remove_first_suite", "ch_remove_last_suite", "ch_strip_ems", "ch_strip_alpn",
+TRANSCRIPT = {"ch_add_sni", "ch_add_sigalgs_cert", "ch_narrow_alpn", "ch_narrow_groups", "ch_swap_suites", "ch_remove_first_suite", "ch_remove_last_suite", "ch_strip_ems", "ch_strip_alpn",
               "ch_strip_groups", "ch_strip_sigalgs", "ch_strip_reneg", "ch_alter_alpn", "ch_alter_srtp",
               "ch_alter_groups", "ch_alter_sigalgs", "ch_alter_cid", "ch_session_id", "sh_session_id",
               "sh_strip_alpn", "sh_strip_reneg", "sh_strip_pointfmt", "sh_alter_alpn", "sh_alter_srtp",
@@ -77,6 +77,15 @@ def effect(v, mut):
         e["effect"], e["why"] = "ELocal", ("the server's renegotiation_info answer (remembered from the first ClientHello) "
                                            "is not offered in the second: FinalizeServerHello refuses")
     return e     # ch2 only: the second ClientHello is the one in the transcript - as when every copy is rewritten
+
+
+# an extension ADDED in transit that makes the server answer something the client never asked for (the client
+# refuses the unsolicited answer), or that the server cannot serve
+ADDED_ANSWERED = {"ch_add_alpn": "server selects a protocol, the client offered none: unsupported_extension",
+                  "ch_add_ems": "server echoes extended_master_secret, the client did not offer it: unsupported_extension",
+                  "ch_add_srtp": "use_srtp offered to a server without SRTP profiles / not offered in the other ClientHello",
+                  "sh_add_alpn": "the client offered no ALPN: unsupported_extension",
+                  "sh_add_ems": "the client did not offer extended_master_secret: unsupported_extension"}
 
 
 def effect1(v, mut):
@@ -125,6 +134,12 @@ def effect1(v, mut):
     if mut in LOCAL:
         e["effect"], e["why"] = "ELocal", LOCAL[mut]
         return e
+    if mut in ADDED_ANSWERED:
+        if v.get("bare") or mut.startswith("sh_") or mut == "ch_add_srtp":
+            e["effect"], e["why"] = "ELocal", ADDED_ANSWERED[mut]
+        else:
+            e["effect"], e["why"] = "ETranscript", "the server does not act on the added extension; the transcripts differ"
+        return e
     if mut in KEYS:
         e["effect"], e["why"] = "EKeys", KEYS[mut]
         return e
@@ -142,6 +157,12 @@ def param_diffs(c):
             ("server", c["sres"] == "ok", c["ssuite"], c["salpn"], c["ssrtp"], c.get("sems", -1), c.get("scurve", -1))):
         if not ok:
             continue
+        if side == "client" and c.get("cpeer_cert", "") != c.get("base_peer_cert", ""):
+            out["server certificate shown to the client"] = "%s instead of %s" % (c.get("cpeer_cert"), c.get("base_peer_cert"))
+        if side == "server" and c.get("ssni", "") != c.get("base_sni", ""):
+            out["server-side server_name"] = "%r instead of %r" % (c.get("ssni"), c.get("base_sni"))
+        if side == "server" and c.get("ssigcert", 0) != c.get("base_sigcert", 0):
+            out["server-side signature_algorithms_cert"] = "%d schemes instead of %d" % (c.get("ssigcert"), c.get("base_sigcert"))
         if suite != c["base_suite"]:
             out[side + " cipher_suite"] = "0x%04x instead of 0x%04x" % (suite, c["base_suite"])
         if alpn != c["base_alpn"]:
@@ -360,7 +381,14 @@ def run(chk):
                      "HelloVerifyRequest and the cookie-less ClientHello are outside the Finished transcript by RFC 6347 "
                      "4.2.1: an alteration there cannot be detected; the monitor for such rewrites (first ClientHello only, "
                      "HelloVerifyRequest version) is therefore 'no negotiated parameter (cipher suite, ALPN, SRTP profile, extended "
-                     "master secret, key-exchange group) differs from the untampered run', both sides succeeding is expected",
+                     "master secret, key-exchange group, the server certificate shown to the client, the server name and the "
+                     "signature_algorithms_cert list the server's state holds) differs from the untampered run', both sides "
+                     "succeeding is expected; model: the server's negotiation state after the second ClientHello is a function of "
+                     "that ClientHello and the configuration only (Hs/C04TranscriptSound.negotiate_forgets_first_hello)",
+                     "tamper family 'add an extension the client did not send' (server_name, ALPN, use_srtp, extended master "
+                     "secret, signature_algorithms_cert in the ClientHello; ALPN, EMS answers in the ServerHello), run in all variants "
+                     "and in two 'bare' variants: client without server name / ALPN / use_srtp / EMS, server with two certificates "
+                     "chosen by server name, ALPN and EMS on request",
                      "every ClientHello mutation has three targets in variants with hello verification: every copy, only the "
                      "first (cookie-less) ClientHello, only the second",
                      "the effect of each rewrite on the two views is classified in checks/c04.py from what is rewritten; "
